@@ -187,10 +187,23 @@ def run_case(col, case, only_rect=None):
         sig = dict(base_sig, clause=clause, **extra)
         col.violation(sig, what, dict(case, rect=rect))
 
+    pre = case.get("pre")
+    if pre:
+        # history: the (shared, mutable) image was left with some size before this layout pass - set by hand through
+        # the public set_size(height=...), or by an earlier render of the same widget at the same width
+        base_sig["history"] = "image-left-with-a-size:" + ("set_size(height)" if "height" in pre else "earlier-render")
+        if "height" in pre:
+            img.set_size(height=pre["height"])
+        if pre.get("render"):
+            keep = widget.render(tuple(case["size"]), False)
+            widget._invalidate()
     ac = case.get("after_create")
+    if ac and pre:
+        base_sig["history"] += "+environment-change"
     if ac:
         # history: the widget exists already when the environment changes
-        base_sig["history"] = "environment-changed-after-widget-creation:" + ("cell_ratio" if "cell_ratio" in ac else "cell_size")
+        if not pre:
+            base_sig["history"] = "environment-changed-after-widget-creation:" + ("cell_ratio" if "cell_ratio" in ac else "cell_size")
         if "cell_ratio" in ac:
             L.ti.set_cell_ratio(ac["cell_ratio"])
         else:       # the terminal is resized by one column and now has another cell size (memos are keyed on the size)
@@ -494,6 +507,20 @@ def build_cases(tier):
                         for cell in ((4, 3), (2, 6), (1, 1)):
                             cases.append(dict(kind=kind, img=img, size=[c], h="|", v="-", upscale=upscale, alpha="",
                                               rows_only=True, after_create=dict(cell=list(cell))))
+        # histories: the image object already carries a size when the flow widget is laid out - (a) set by hand
+        # with set_size(height=h) (its width may coincide with the container width while the height does not),
+        # (b) left by an earlier render at the SAME width before the cell ratio / cell size changed
+        for img in ("3x2", "2x4", "6x1", "1x4", "4x3"):
+            for c in range(1, 11):
+                for upscale in (True, False):
+                    for hgt in range(1, 7):
+                        cases.append(dict(kind=kind, img=img, size=[c], h="|", v="-", upscale=upscale, alpha="",
+                                          rows_only=True, pre=dict(height=hgt)))
+                    changes = ([dict(cell_ratio=1.0), dict(cell_ratio=0.25)] if fam == "block" else
+                               [dict(cell=[4, 3]), dict(cell=[2, 6])])
+                    for ch in changes:
+                        cases.append(dict(kind=kind, img=img, size=[c], h="|", v="-", upscale=upscale, alpha="",
+                                          rows_only=True, pre=dict(render=True), after_create=ch))
         if style == "kitty" or kind == "iterm2-lines@konsole":
             # images that carry a disguise (kitty; iterm2 on konsole): every disguise state
             for dis in ((1, 0), (2, 0), (0, 1), (2, 2)):
